@@ -4,7 +4,8 @@
 
    The sort.  Go sorts the copied window with sort.Slice (pdqsort, NOT stable) under the
    comparator less(a,b) := _itimediff(a.seq, b.seq) < 0.  The model uses the stable insertion
-   sort `isort` under the same comparator.  Equivalence on the observable result:
+   sort `isort` under the same comparator (each sample is placed behind every sample that is not
+   greater than it).  Equivalence on the observable result:
    (1) if all seqs of the window lie within a span < 2^31, `less` is a strict weak order whose
        equivalence classes are "equal seq"; any correct sort then produces the same sequence of
        seq values, and two outputs can differ only in the order of samples with EQUAL seq;
@@ -58,12 +59,15 @@ Definition at_window (t : autotune) : list pulse :=
 
 (* less(i,j) = _itimediff(sorted[i].seq, sorted[j].seq) < 0 *)
 Definition plt (a b : pulse) : bool := itimediff (p_seq a) (p_seq b) <? 0.
-Fixpoint insert (x : pulse) (l : list pulse) : list pulse :=
-  match l with
+(* stable insertion sort; the accumulator is kept in DESCENDING order (largest first) so that the
+   common case - a window that is already in order - costs one comparison per sample *)
+Fixpoint insert_desc (x : pulse) (racc : list pulse) : list pulse :=
+  match racc with
   | [] => [x]
-  | y :: ys => if plt x y then x :: l else y :: insert x ys
+  | y :: ys => if plt x y then y :: insert_desc x ys else x :: racc
   end.
-Definition isort (l : list pulse) : list pulse := fold_left (fun acc x => insert x acc) l [].
+Definition isort (l : list pulse) : list pulse :=
+  rev (fold_left (fun racc x => insert_desc x racc) l []).
 
 (* One edge loop of FindPeriod:
      for ; idx < len(sorted); idx++ {
